@@ -1,9 +1,131 @@
-(* C17 - Directory reads deliver every entry exactly once, whole and in order. *)
+(* C17 - Directory reads deliver every entry exactly once, whole and in order.
+   Only statements, each closed by [exact lemma], with Print Assumptions.
+
+   Vocabulary (Proofs/ReaddirProofs.v):
+     lists_script script ds   the underlying iterator, run without error, lists exactly ds:
+                              non-empty batches, then an empty batch or the end of the script
+     replies enc script counts  what successive Reads with these counts return, each issued at
+                              the offset the reader keeps itself (sum of the lengths returned so far),
+                              on NewReaddir(codec, iterator)
+     reply_bytes enc r        the bytes of a reply;  ok_reply g = the error-free reply carrying
+                              the encodings of the entries g
+     fits enc ds count        every entry of ds encodes to at most count bytes
+   The theorems hold for every entry type and every encoding function; entries encode to
+   non-empty strings (a Dir encodes to >= 49 bytes). *)
 From Coq Require Import List NArith ZArith Bool.
 From P9 Require Import Base.Res Model.Readdir Proofs.ReaddirProofs.
 Import ListNotations.
+Open Scope N_scope.
 
+(* successive reads return the encodings concatenated in listing order; no read fails; once a
+   reply is empty - and one is, within |ds|+1 reads - everything has been returned *)
+Theorem C17_stream : forall (E : Type) (enc : E -> list N) script ds counts,
+  lists_script script ds -> Forall (fun d => enc d <> []) ds -> Forall (fits enc ds) counts ->
+  (forall r, In r (replies enc script counts) -> exists g, r = ok_reply g)
+  /\ (exists k, concat (map (reply_bytes enc) (replies enc script counts)) = enc_all enc (firstn k ds))
+  /\ ((In (ok_reply []) (replies enc script counts) \/ (length ds < length counts)%nat) ->
+      concat (map (reply_bytes enc) (replies enc script counts)) = enc_all enc ds).
+Proof. exact @stream. Qed.
+Print Assumptions C17_stream.
+
+(* each reply consists of whole entries, a contiguous run of the listing continuing where the
+   previous reply stopped, and of at most the requested number of bytes
+   (this one needs no premise on the counts) *)
+Theorem C17_whole : forall (E : Type) (enc : E -> list N) script ds counts,
+  lists_script script ds ->
+  exists groups,
+    replies enc script counts = map ok_reply groups
+    /\ (exists k, concat groups = firstn k ds)
+    /\ Forall2 (fun g c => blen (enc_all enc g) <= c) groups counts.
+Proof. exact @whole. Qed.
+Print Assumptions C17_whole.
+
+(* a reply is empty only when everything has been delivered before it, and the reading loop
+   ends: an empty reply comes within the first |ds|+1 reads *)
+Theorem C17_progress : forall (E : Type) (enc : E -> list N) script ds counts,
+  lists_script script ds -> Forall (fun d => enc d <> []) ds -> Forall (fits enc ds) counts ->
+  (forall i, nth_error (replies enc script counts) i = Some (ok_reply []) ->
+             concat (map (reply_bytes enc) (firstn i (replies enc script counts))) = enc_all enc ds)
+  /\ ((length ds < length counts)%nat ->
+      exists i, (i <= length ds)%nat /\ nth_error (replies enc script counts) i = Some (ok_reply [])).
+Proof. exact @progress. Qed.
+Print Assumptions C17_progress.
+
+(* a read at any other offset is rejected and changes nothing - in every state *)
 Theorem C17_offset : forall (E : Type) (enc : E -> list N) (st : rdst E) count off,
   r_off st <> off -> read enc st count off = (RdBadOff, st).
 Proof. exact @read_bad_offset. Qed.
 Print Assumptions C17_offset.
+
+(* the client iterator (openDir.Next called until it returns nothing), reading iounit bytes at a
+   time, obtains exactly the server's entries.  The decoder and its round trip are hypotheses,
+   to be discharged by the wire-codec development (DecodeDir o Marshal = id on well-formed Dirs). *)
+Section Client.
+Variable E : Type.
+Variable enc : E -> list N.
+Variable wf : E -> Prop.
+Variable dec : list N -> dres E.
+Hypothesis dec_enc : forall d rest, wf d -> dec (enc d ++ rest) = DOk d rest.
+Hypothesis dec_nil : dec [] = DEof.
+Hypothesis enc_nonempty : forall d, wf d -> enc d <> [].
+
+Theorem C17_client : forall script ds iounit fuel,
+  lists_script script ds -> Forall wf ds -> fits enc ds iounit -> (length ds < fuel)%nat ->
+  cl_all enc dec iounit fuel new_cdir (new_readdir script) = Ok ds.
+Proof. exact (client enc wf dec dec_enc dec_nil enc_nonempty). Qed.
+
+(* with Ropen's iounit 0 for directories the client reads msize-11 bytes at a time *)
+Theorem C17_client_msize : forall script ds msize fuel,
+  lists_script script ds -> Forall wf ds ->
+  Forall (fun d => blen (enc d) + 11 <= msize) ds -> (length ds < fuel)%nat ->
+  cl_all enc dec (msize - 11) fuel new_cdir (new_readdir script) = Ok ds.
+Proof. exact (client_msize enc wf dec dec_enc dec_nil enc_nonempty). Qed.
+End Client.
+Print Assumptions C17_client.
+Print Assumptions C17_client_msize.
+
+(* ---- non-vacuity: the hypotheses are satisfiable by a concrete non-trivial listing ---- *)
+Definition ex_enc (e : list N) : list N := e.
+Definition ex_ds : list (list N) := [[1;2]; [3]; [4;5;6]; [7;8]].
+Definition ex_script : list (batch (list N)) := [BOk [[1;2]; [3]]; BOk [[4;5;6]]; BOk [[7;8]]; BOk []; BErr []].
+Definition ex_counts : list N := [3; 4; 3; 5; 3].
+
+Example C17_ex_premises :
+  lists_script ex_script ex_ds /\ Forall (fun d => ex_enc d <> []) ex_ds /\ Forall (fits ex_enc ex_ds) ex_counts
+  /\ (length ex_ds < length ex_counts)%nat.
+Proof.
+  split; [|split; [|split]].
+  - apply (LS_batch [[1;2]; [3]]); [discriminate|].
+    apply (LS_batch [[4;5;6]]); [discriminate|].
+    apply (LS_batch [[7;8]] _ []); [discriminate|]. apply LS_empty.
+  - repeat constructor; discriminate.
+  - repeat constructor; unfold blen; simpl; discriminate.
+  - simpl. repeat constructor.
+Qed.
+
+(* look-ahead at work: [4;5;6] does not fit behind [1;2][3] in 3 bytes, nor [7;8] behind [4;5;6] in 4 *)
+Example C17_ex_replies :
+  replies ex_enc ex_script ex_counts
+  = [ok_reply [[1;2]; [3]]; ok_reply [[4;5;6]]; ok_reply [[7;8]]; ok_reply []; ok_reply []].
+Proof. vm_compute. reflexivity. Qed.
+
+Example C17_ex_offset :
+  let st := snd (run_reads ex_enc (new_readdir ex_script) 0%Z [3]) in
+  r_off st = 3%Z /\ read ex_enc st 4 0%Z = (RdBadOff, st).
+Proof. vm_compute. split; reflexivity. Qed.
+
+(* the Section hypotheses of C17_client are satisfiable: one-byte entries *)
+Definition ex1_enc (d : N) : list N := [d].
+Definition ex1_dec (bs : list N) : dres N := match bs with [] => DEof | b :: r => DOk b r end.
+Example C17_ex_client :
+  cl_all ex1_enc ex1_dec 2 6 new_cdir (new_readdir [BOk [10; 11; 12]; BOk [13; 14]]) = Ok [10; 11; 12; 13; 14].
+Proof.
+  apply (C17_client N ex1_enc (fun _ => True) ex1_dec).
+  - reflexivity.
+  - reflexivity.
+  - discriminate.
+  - apply (LS_batch [10; 11; 12]); [discriminate|]. apply (LS_batch [13; 14] _ []); [discriminate|]. apply LS_end.
+  - repeat constructor.
+  - repeat constructor; unfold blen; simpl; discriminate.
+  - simpl. repeat constructor.
+Qed.
